@@ -377,3 +377,80 @@ pub fn playable(p: &P) -> bool {
 pub fn valid(p: &P) -> bool {
     playable(p) && p.pcs[PAWN as usize] & (rank_set(0) | rank_set(7)) == 0
 }
+
+/// Query forms (one square at a time; a single line walk) of the two cached sets. Set-extensionally
+/// equal to `checkers_spec` / `pinned_spec` (checked natively by spec/selfcheck.rs on every perft node);
+/// contracts use them with a nondeterministic square, which keeps the solver query small.
+pub fn slider_kind_ok(p: &P, sq: u8, df: i8, dr: i8) -> bool {
+    let diagonal = df != 0 && dr != 0;
+    if has(p.pcs[QUEEN as usize], sq) {
+        return true;
+    }
+    if diagonal {
+        has(p.pcs[BISHOP as usize], sq)
+    } else {
+        has(p.pcs[ROOK as usize], sq)
+    }
+}
+/// does the enemy piece on `q` give check to the mover's king?
+pub fn is_checker(p: &P, q: u8) -> bool {
+    let us = p.turn;
+    let them = p.col[(1 - us) as usize];
+    if !has(them, q) {
+        return false;
+    }
+    let k = king_of(p, us);
+    if has(p.pcs[KNIGHT as usize], q) {
+        return has(knight_att(k), q);
+    }
+    if has(p.pcs[PAWN as usize], q) {
+        // the pawn on q attacks k  <=>  q is one of the squares a pawn of OUR colour on k would attack
+        return has(pawn_att(k, us), q);
+    }
+    if has(p.pcs[KING as usize], q) {
+        return false;
+    }
+    match aligned_dir(k, q) {
+        None => false,
+        Some((df, dr)) => slider_kind_ok(p, q, df, dr) && between_spec(k, q) & occ(p) == 0,
+    }
+}
+/// is the piece on `q` (either colour) the sole blocker between the mover's king and an enemy slider
+/// that moves along that line?
+pub fn is_pinned(p: &P, q: u8) -> bool {
+    let us = p.turn;
+    let them = p.col[(1 - us) as usize];
+    let o = occ(p);
+    if !has(o, q) {
+        return false;
+    }
+    let k = king_of(p, us);
+    match aligned_dir(k, q) {
+        None => false,
+        Some((df, dr)) => {
+            if between_spec(k, q) & o != 0 {
+                return false;
+            }
+            // first occupied square beyond q in the same direction
+            let beyond = ray(q, df, dr, o) & o;
+            beyond & them != 0 && slider_kind_ok(p, beyond.trailing_zeros() as u8, df, dr)
+        }
+    }
+}
+
+/// enemy sliders that stand on a line through the mover's king along which they move (blockers ignored)
+pub fn pinners_spec(p: &P) -> u64 {
+    let us = p.turn;
+    let them = p.col[(1 - us) as usize];
+    let k = king_of(p, us);
+    let rq = (p.pcs[ROOK as usize] | p.pcs[QUEEN as usize]) & them;
+    let bq = (p.pcs[BISHOP as usize] | p.pcs[QUEEN as usize]) & them;
+    (rook_rays_spec(k) & rq) | (bishop_rays_spec(k) & bq)
+}
+/// enemy knights and pawns attacking the mover's king
+pub fn leaper_checkers_spec(p: &P) -> u64 {
+    let us = p.turn;
+    let them = p.col[(1 - us) as usize];
+    let k = king_of(p, us);
+    (knight_att(k) & p.pcs[KNIGHT as usize] & them) | (pawn_att(k, us) & p.pcs[PAWN as usize] & them)
+}
